@@ -113,7 +113,8 @@ def main():
                    "The rule set also contains rules added after independently seeded changes were missed, and rules borrowed from related properties where they are " \
                    "necessary conditions of this one (DESIGN.md §8.4-8.6 lists them with the change each one catches); helper functions introduced after the " \
                    "confirmed tree are inlined, private renames are resolved and iterator pipelines desugared before the rules run (vplib/inline.py, desugar.py). " \
-                   "quick = workspace configuration (+ one alternative feature configuration where the anchors are cfg-gated); thorough = further feature configurations."
+                   "quick = workspace configuration + the single-feature-off configurations of crate vaporetto in which this property's anchors compile different code " \
+                   "(the pinned suite builds default features only); thorough = all further feature configurations (DESIGN.md §8.2)."
             checks.append({
                 "property_id": pid,
                 "quick_cmd": "./vcheck %s --tier quick" % pid,
